@@ -72,28 +72,29 @@ class FitFractions:
         )
         self.cached_int_total += int_mc
         self.cached_grad_total += g_int_mc
-        cahced_res = self.amp.used_res
-        amp_tmp = self.amp
-        for i in range(len(self.res)):
-            for j in range(i, -1, -1):
-                if i == j:
-                    name = str(self.res[i])
-                    amp_tmp.set_used_res([self.res[i]])
-                else:
-                    name = (str(self.res[i]), str(self.res[j]))
-                    amp_tmp.set_used_res([self.res[i], self.res[j]])
-                int_tmp, g_int_tmp = eval_integral(
-                    amp_tmp,
-                    mcdata,
-                    var=self.var,
-                    weight=weight,
-                    args=args,
-                    kwargs=kwargs,
-                )
-                self.cached_int[name] = self.cached_int[name] + int_tmp
-                self.cached_grad[name] = self.cached_grad[name] + g_int_tmp
-
-        self.amp.set_used_res(cahced_res)
+        old_chains_idx = list(self.amp.decay_group.chains_idx)
+        try:
+            amp_tmp = self.amp
+            for i in range(len(self.res)):
+                for j in range(i, -1, -1):
+                    if i == j:
+                        name = str(self.res[i])
+                        amp_tmp.set_used_res([self.res[i]])
+                    else:
+                        name = (str(self.res[i]), str(self.res[j]))
+                        amp_tmp.set_used_res([self.res[i], self.res[j]])
+                    int_tmp, g_int_tmp = eval_integral(
+                        amp_tmp,
+                        mcdata,
+                        var=self.var,
+                        weight=weight,
+                        args=args,
+                        kwargs=kwargs,
+                    )
+                    self.cached_int[name] = self.cached_int[name] + int_tmp
+                    self.cached_grad[name] = self.cached_grad[name] + g_int_tmp
+        finally:
+            self.amp.decay_group.set_used_chains(old_chains_idx)
 
     def get_frac_grad(self, sum_diag=True):
         n = len(self.res)
@@ -200,61 +201,63 @@ def cal_fitfractions(amp, mcdata, res=None, batch=None, args=(), kwargs=None):
     kwargs = kwargs if kwargs is not None else {}
     var = amp.trainable_variables
     # allvar = [i.name for i in var]
-    cahced_res = amp.used_res
-    if res is None:
-        res = list(amp.res)
-    n_res = len(res)
-    fitFrac = {}
-    err_fitFrac = {}
-    g_fitFrac = [None] * n_res
-    amp.set_used_res(res)
-    weight = 1.0
-    if batch is not None:
-        weight = mcdata.get("weight", 1.0)
-        mcdata = list(data_split(mcdata, batch))
-        if not isinstance(weight, float):
-            weight = list(data_split(weight, batch))
-    int_mc, g_int_mc = sum_gradient(
-        amp, mcdata, var=var, weight=weight, args=args, kwargs=kwargs
-    )
-    for i in range(n_res):
-        for j in range(i, -1, -1):
-            amp_tmp = amp
-            if i == j:
-                name = "{}".format(res[i])
-                amp_tmp.set_used_res([res[i]])
-            else:
-                name = (str(res[i]), str(res[j]))
-                amp_tmp.set_used_res([res[i], res[j]])
-            int_tmp, g_int_tmp = sum_gradient(
-                amp_tmp,
-                mcdata,
-                var=var,
-                weight=weight,
-                args=args,
-                kwargs=kwargs,
-            )
-            if i == j:
-                fitFrac[name] = int_tmp / int_mc
-                gij = (
-                    g_int_tmp / int_mc - (int_tmp / int_mc) * g_int_mc / int_mc
+    old_chains_idx = list(amp.decay_group.chains_idx)
+    try:
+        if res is None:
+            res = list(amp.res)
+        n_res = len(res)
+        fitFrac = {}
+        err_fitFrac = {}
+        g_fitFrac = [None] * n_res
+        amp.set_used_res(res)
+        weight = 1.0
+        if batch is not None:
+            weight = mcdata.get("weight", 1.0)
+            mcdata = list(data_split(mcdata, batch))
+            if not isinstance(weight, float):
+                weight = list(data_split(weight, batch))
+        int_mc, g_int_mc = sum_gradient(
+            amp, mcdata, var=var, weight=weight, args=args, kwargs=kwargs
+        )
+        for i in range(n_res):
+            for j in range(i, -1, -1):
+                amp_tmp = amp
+                if i == j:
+                    name = "{}".format(res[i])
+                    amp_tmp.set_used_res([res[i]])
+                else:
+                    name = (str(res[i]), str(res[j]))
+                    amp_tmp.set_used_res([res[i], res[j]])
+                int_tmp, g_int_tmp = sum_gradient(
+                    amp_tmp,
+                    mcdata,
+                    var=var,
+                    weight=weight,
+                    args=args,
+                    kwargs=kwargs,
                 )
-                g_fitFrac[i] = gij
-            else:
-                fitFrac[name] = (
-                    (int_tmp / int_mc)
-                    - fitFrac["{}".format(res[i])]
-                    - fitFrac["{}".format(res[j])]
-                )
-                gij = (
-                    g_int_tmp / int_mc
-                    - (int_tmp / int_mc) * g_int_mc / int_mc
-                    - g_fitFrac[i]
-                    - g_fitFrac[j]
-                )
-            # print(name,gij.tolist())
-            err_fitFrac[name] = gij
-    amp.set_used_res(cahced_res)
+                if i == j:
+                    fitFrac[name] = int_tmp / int_mc
+                    gij = (
+                        g_int_tmp / int_mc - (int_tmp / int_mc) * g_int_mc / int_mc
+                    )
+                    g_fitFrac[i] = gij
+                else:
+                    fitFrac[name] = (
+                        (int_tmp / int_mc)
+                        - fitFrac["{}".format(res[i])]
+                        - fitFrac["{}".format(res[j])]
+                    )
+                    gij = (
+                        g_int_tmp / int_mc
+                        - (int_tmp / int_mc) * g_int_mc / int_mc
+                        - g_fitFrac[i]
+                        - g_fitFrac[j]
+                    )
+                # print(name,gij.tolist())
+                err_fitFrac[name] = gij
+    finally:
+        amp.decay_group.set_used_chains(old_chains_idx)
     return fitFrac, err_fitFrac
 
 
@@ -267,47 +270,49 @@ def cal_fitfractions_no_grad(
     kwargs = kwargs if kwargs is not None else {}
     var = amp.trainable_variables
     # allvar = [i.name for i in var]
-    cahced_res = amp.used_res
-    if res is None:
-        res = list(amp.res)
-    n_res = len(res)
-    fitFrac = {}
-    amp.set_used_res(res)
-    weight = 1.0
-    if batch is not None:
-        weight = mcdata.get("weight", 1.0)
-        mcdata = list(data_split(mcdata, batch))
-        if not isinstance(weight, float):
-            weight = list(data_split(weight, batch))
-    int_mc = sum_no_gradient(
-        amp, mcdata, var=var, weight=weight, args=args, kwargs=kwargs
-    )
-    for i in range(n_res):
-        for j in range(i, -1, -1):
-            amp_tmp = amp
-            if i == j:
-                name = "{}".format(res[i])
-                amp_tmp.set_used_res([res[i]])
-            else:
-                name = "{}x{}".format(res[i], res[j])
-                amp_tmp.set_used_res([res[i], res[j]])
-            int_tmp = sum_no_gradient(
-                amp_tmp,
-                mcdata,
-                var=var,
-                weight=weight,
-                args=args,
-                kwargs=kwargs,
-            )
-            if i == j:
-                fitFrac[name] = int_tmp / int_mc
-            else:
-                fitFrac[name] = (
-                    (int_tmp / int_mc)
-                    - fitFrac["{}".format(res[i])]
-                    - fitFrac["{}".format(res[j])]
+    old_chains_idx = list(amp.decay_group.chains_idx)
+    try:
+        if res is None:
+            res = list(amp.res)
+        n_res = len(res)
+        fitFrac = {}
+        amp.set_used_res(res)
+        weight = 1.0
+        if batch is not None:
+            weight = mcdata.get("weight", 1.0)
+            mcdata = list(data_split(mcdata, batch))
+            if not isinstance(weight, float):
+                weight = list(data_split(weight, batch))
+        int_mc = sum_no_gradient(
+            amp, mcdata, var=var, weight=weight, args=args, kwargs=kwargs
+        )
+        for i in range(n_res):
+            for j in range(i, -1, -1):
+                amp_tmp = amp
+                if i == j:
+                    name = "{}".format(res[i])
+                    amp_tmp.set_used_res([res[i]])
+                else:
+                    name = "{}x{}".format(res[i], res[j])
+                    amp_tmp.set_used_res([res[i], res[j]])
+                int_tmp = sum_no_gradient(
+                    amp_tmp,
+                    mcdata,
+                    var=var,
+                    weight=weight,
+                    args=args,
+                    kwargs=kwargs,
                 )
-    amp.set_used_res(cahced_res)
+                if i == j:
+                    fitFrac[name] = int_tmp / int_mc
+                else:
+                    fitFrac[name] = (
+                        (int_tmp / int_mc)
+                        - fitFrac["{}".format(res[i])]
+                        - fitFrac["{}".format(res[j])]
+                    )
+    finally:
+        amp.decay_group.set_used_chains(old_chains_idx)
     return fitFrac
 
 
